@@ -96,11 +96,18 @@ fn run_timing_session(seed: u64, n: u64, ev: &mut Evidence) {
     let plans: Vec<Plan> = (0..nreq).map(|_| gen_plan(&mut rng)).collect();
     let style = ALL_STYLES_API[rng.usize_below(3)];
     let decode = (rng.u8() % 4, rng.u8() % 3, rng.u8() % 3);
+    // one session in six writes through a slow peer (a few bytes per 1-4 ms): only when every timeout
+    // leaves the write - which is bounded by the same timeout - plenty of room
+    let slow_write = if rng.chance(1, 6) && plans.iter().all(|p| p.timeout >= Duration::from_millis(100)) { Some((3 + rng.usize_below(4), Duration::from_millis(1 + rng.below(4)))) } else { None };
 
     let plans2 = plans.clone();
     let result = run_paused(|| async move {
         let seq = Seq::default();
         let (io, handle) = sim_io(vec![], seq.clone());
+        if let Some((bytes, stall)) = slow_write {
+            // the peer takes the request slowly: the timeout still runs from the completed transmission
+            handle.set_write_chunking(bytes, stall);
+        }
         let peer = Arc::new(Mutex::new(Peer {
             asm: RequestAssembler::new(framing),
             plans: plans2.clone(),
@@ -237,6 +244,10 @@ fn run_timing_session(seed: u64, n: u64, ev: &mut Evidence) {
         let i = deliveries.partition_point(|d| d.1 < off);
         deliveries.get(i).map(|d| d.2)
     };
+    if slow_write.is_some() {
+        ev.count("slow_write_sessions", 1);
+        ev.class(format!("{}|slow_write|{}", framing.name(), style.name()));
+    }
     for (k, plan) in plans.iter().enumerate() {
         ev.count("requests", 1);
         let Some(t_tx) = frame_at.get(k).copied() else {
